@@ -187,7 +187,7 @@ def strip_doc(body):
     return body
 
 
-CPHASE_TEMPLATE = (
+_UNUSED_CPHASE_TEMPLATE = (
     "U_list1 = [identity(2)] * N\n"
     "U_list2 = [identity(2)] * N\n"
     "U_list1[control] = fock_dm(2, 1)\n"
@@ -196,6 +196,76 @@ CPHASE_TEMPLATE = (
     "U = tensor(U_list1) + tensor(U_list2)\n"
     "return U"
 )
+
+
+def _recognise_cphase(stmts, params):
+    """-> control value (0/1) of the controlled-phase construction, or Refuse"""
+    lists = {}     # local list name -> {index name: expression text}
+    result = None
+    theta, npar, control, target = params[0], params[1], params[2], params[3]
+
+    def tensor_sum(node):
+        if isinstance(node, ast.BinOp) and isinstance(node.op, ast.Add):
+            out = []
+            for side in (node.left, node.right):
+                if isinstance(side, ast.Call) and ast.unparse(side.func) == "tensor" and len(side.args) == 1 \
+                        and isinstance(side.args[0], ast.Name) and not side.keywords:
+                    out.append(side.args[0].id)
+                else:
+                    return None
+            return out
+        return None
+
+    for st in stmts:
+        if isinstance(st, ast.Assign) and len(st.targets) == 1:
+            tgt = st.targets[0]
+            if isinstance(tgt, ast.Name) and ast.unparse(st.value) == f"[identity(2)] * {npar}":
+                lists[tgt.id] = {}
+                continue
+            if isinstance(tgt, ast.Subscript) and isinstance(tgt.value, ast.Name) and tgt.value.id in lists \
+                    and isinstance(tgt.slice, ast.Name) and tgt.slice.id in (control, target):
+                if tgt.slice.id in lists[tgt.value.id]:
+                    raise Refuse("cphase: element assigned twice")
+                lists[tgt.value.id][tgt.slice.id] = ast.unparse(st.value)
+                continue
+            if isinstance(tgt, ast.Name) and tensor_sum(st.value):
+                result = (tgt.id, tensor_sum(st.value))
+                continue
+            raise Refuse("cphase: unrecognised statement " + ast.unparse(st)[:60])
+        if isinstance(st, ast.Return):
+            if isinstance(st.value, ast.Name) and result and st.value.id == result[0]:
+                used = result[1]
+            elif tensor_sum(st.value):
+                used = tensor_sum(st.value)
+            else:
+                raise Refuse("cphase: unrecognised return")
+            if sorted(used) != sorted(lists) or len(lists) != 2:
+                raise Refuse("cphase: the sum does not use exactly the two factor lists")
+            on = [n for n, d in lists.items() if d.get(target) == f"phasegate({theta})"]
+            off = [n for n, d in lists.items() if target not in d]
+            if len(on) != 1 or len(off) != 1:
+                raise Refuse("cphase: phase factor placement not recognised")
+            proj_on, proj_off = lists[on[0]].get(control), lists[off[0]].get(control)
+            if (proj_on, proj_off) == ("fock_dm(2, 1)", "fock_dm(2, 0)"):
+                return 1
+            if (proj_on, proj_off) == ("fock_dm(2, 0)", "fock_dm(2, 1)"):
+                return 0
+            raise Refuse("cphase: control projectors not recognised")
+        raise Refuse("cphase: unrecognised statement " + ast.unparse(st)[:60])
+    raise Refuse("cphase: no return")
+
+
+class _Norm(ast.NodeTransformer):
+    """equivalent spellings -> one form, before a template comparison"""
+    def visit_List(self, node):
+        self.generic_visit(node)
+        if len(node.elts) == 1 and isinstance(node.elts[0], ast.Starred):
+            return ast.Call(func=ast.Name(id="list", ctx=ast.Load()), args=[node.elts[0].value], keywords=[])
+        return node
+
+
+def _canon(node):
+    return ast.unparse(_Norm().visit(ast.parse(ast.unparse(node))))
 
 
 def translate_function(fd, tr):
@@ -211,14 +281,14 @@ def translate_function(fd, tr):
         gate_params.append(p)
     env = {}
     if fd.name == "cphase":
-        # validation ifs, then the tensor construction |1><1| (x) phasegate + |0><0| (x) 1 on (control, target)=(0,1)
+        # validation ifs, then the tensor construction  |v><v| (x) phasegate(theta) + |1-v><1-v| (x) 1  on (control, target);
+        # recognised by data flow (any statement order, any local names), not by text
         rest = [b for b in body if not isinstance(b, ast.If)]
-        if ast.unparse(rest) != CPHASE_TEMPLATE or params[:4] != ["theta", "N", "control", "target"]:
-            raise Refuse("cphase body differs from the recognised controlled-phase construction")
+        cv = _recognise_cphase(rest, params)
         dflt = [ast.unparse(d) for d in defaults]
-        if dflt != ["2", "0", "1"]:
-            raise Refuse("cphase defaults changed")
-        return 1, "MCtrl 1 1 (msubst [Var 0] fn_phasegate)"
+        if params[:4] != ["theta", "N", "control", "target"] or dflt != ["2", "0", "1"]:
+            raise Refuse("cphase signature/defaults changed")
+        return 1, f"MCtrl 1 {cv} (msubst [Var 0] fn_phasegate)"
     for j, p in enumerate(gate_params):
         env[p] = f"Var {j}"
     arity = len(gate_params)
@@ -344,7 +414,7 @@ def generate():
             want = ("return controlled_gate(U=self.target_gate(targets=self.targets, **self.kwargs).get_compact_qobj(), "
                     "controls=list(range(len(self.controls))), targets=list(range(len(self.controls), "
                     "len(self.targets) + len(self.controls))), control_value=self.control_value)")
-            if len(b) == 1 and ast.unparse(b[0]) == want:
+            if len(b) == 1 and _canon(b[0]) == _canon(ast.parse(want).body[0]):
                 ctrl_template_ok = True
                 continue
             raise Broken("translator:gateclass.py:ControlledGate.get_compact_qobj", "differs from the recognised controlled-gate construction")
